@@ -40,8 +40,9 @@ LEVEL_NOTE = ("Determinism is a property of the runtime: half (B) is sampling, n
               "That defect is repaired (/repo 992d05a: dummy pin edges ordered by endpoint positions); since then pin classes — exclusive ones serving several connectors included — ARE in the exact classes: "
               "route-twice on *-params scenes (own index range, 300 quick / 1200 thorough: same calls twice, heap scrambled, routes + display routes + A* vertex paths, i.e. the chosen pins, bit-identical) and "
               "route-translate[-orth] (raw routes exact). The cost-judged symmetry class keeps one connector per exclusive class (pins are handed out greedily in connector order). "
-              "The crossing-penalty stage is switched off in the run-twice params class: Router::improveCrossings keeps crossing connectors in a std::map<ConnRef*, std::set<ConnRef*>> and "
-              "removeConnectorWithMostCrossings breaks ties by iteration (= address) order, so which connector is rerouted is not reproducible (about 1 scene in 5000; harness --mode twice-xstage switches it on). "
+              "The crossing-penalty stage (improveCrossings: ties between crossing connectors were broken by ConnRef address, repaired in /repo 5dab214) is on in the run-twice params class (every second scene forced, "
+              "a third with parallel connectors) and allowed in every translate scene. Still address dependent on 5dab214 and therefore kept off (reported): >= 2 connectors attached to ONE pin class (two builds of the same "
+              "scene differ about once in 1000..5000 such scenes; harness --mode twice-multipin generates them; C20_ZEROSHIFT=1 makes the translate class a rebuild-twice class for triage): one connector per pin class in the exact classes. "
               "CmpVisEdgeRotation itself is hand-modelled (Model/RouteCost.lean cmpVisEdge; the translator has no std::pair locals) — Props/C20Tie: strict weak order among dummy edges, dummy before orthogonal, "
               "address decides only when both endpoint pairs are equal; ptLt = the regenerated Point::operator<; the model is not tied to the source otherwise than by the run-twice class.")
 TECHNIQUE = "Lean 4 invariance/uniqueness theorems (logic half) + run-twice / frame-change differential harness decided by an exact Lean driver (runtime half)"
